@@ -93,6 +93,14 @@ func extractSinglePart(re *syntax.Regexp) *charClassPart {
 	var charClass *syntax.Regexp
 	var minMatch, maxMatch int
 
+	// Lazy quantifiers stop as early as possible; the composite searchers are greedy.
+	if re.Flags&syntax.NonGreedy != 0 {
+		switch re.Op {
+		case syntax.OpPlus, syntax.OpStar, syntax.OpQuest, syntax.OpRepeat:
+			return nil
+		}
+	}
+
 	switch re.Op {
 	case syntax.OpPlus:
 		// cc+ → minMatch=1, maxMatch=unlimited (0 means unlimited)
